@@ -25,6 +25,7 @@ import (
 	"go.opentelemetry.io/collector/connector"
 	"go.opentelemetry.io/collector/exporter"
 	"go.opentelemetry.io/collector/extension"
+	"go.opentelemetry.io/collector/featuregate"
 	"go.opentelemetry.io/collector/processor"
 	"go.opentelemetry.io/collector/receiver"
 )
@@ -97,6 +98,10 @@ func vConfMap(topo vTopo, specs []vExtSpec, rng *vRand) map[string]any {
 func TestVerifC10Otelcol(t *testing.T) {
 	out := vOpen()
 	defer out.Close()
+	// profiles pipelines are behind a feature gate in the configuration validation
+	if err := featuregate.GlobalRegistry().Set("service.profilesSupport", true); err != nil {
+		t.Fatal(err)
+	}
 	rrng := vNewRand(1016)
 	for i := 0; i < vBudget(120, 10); i++ {
 		vReloadRun(out, rrng)
